@@ -1,6 +1,7 @@
 (** C13 — a grammar's meaning does not depend on how it is spelled. *)
 From Coq Require Import List ZArith Bool Sorted.
 From Gocc Require Import Base.Utf8 Front.LitConv Front.GoLit Front.LitConvProofs Front.FUnicode Front.FScan Front.FScanProofs.
+From Gocc Require LR.Parse Front.Sem Front.FScanTypes.
 Import ListNotations.
 Open Scope Z_scope.
 
@@ -54,3 +55,13 @@ Print Assumptions C13_quoting_style.
 Theorem C13_scanner_total : forall src, exists ts e, fscan_opt src = Some (ts, e) /\ fscan_all src = (ts, e).
 Proof. exact fscan_opt_total. Qed.
 Print Assumptions C13_scanner_total.
+
+(** layout does not change what the front end DECIDES either: the whole front-end model (scanner ; parser on the
+    shipped tables ; semantic checks) reads only the types and literals of the tokens, so layout inserted at a token
+    boundary leaves its verdict unchanged (hypotheses: those of [C13_layout_insert]) *)
+Theorem C13_layout_does_not_change_acceptance : forall ft tb fuel pre ws suf,
+  nonneg (pre ++ ws ++ suf) -> is_layout ws -> boundary pre suf -> suf <> [] -> hard suf ->
+  (ends_with_slash pre -> match ws with [] => True | w :: _ => is_blank w = true end) ->
+  Sem.front_accepts_src ft tb fuel (pre ++ ws ++ suf) = Sem.front_accepts_src ft tb fuel (pre ++ suf).
+Proof. exact FScanTypes.front_accepts_src_layout. Qed.
+Print Assumptions C13_layout_does_not_change_acceptance.
